@@ -162,14 +162,15 @@ Qed.
 Definition NW (t : st) : Prop :=
   forall c, c_phase (cl t c) = PHandle -> c_chk (cl t c) = true -> c_state (cl t c) = CWaiting.
 
-Lemma NW_step cf t o : is_stale_fail cf o = false -> NW t -> NW (step cf t o).
+Lemma NW_step cf t o : Own t -> is_stale_fail cf o = false -> NW t -> NW (step cf t o).
 Proof.
-  intros Hp N. unfold NW in *.
+  intros O Hp N. unfold NW in *.
   unfold step; destruct (enabled cf t o) eqn:En; [| assumption].
   destruct o; opn En.
   all: intros k; pose proof (N k) as Nk; unfold upd; eqb_all; cbn; try tauto; try congruence.
-  simpl in Hp. destruct healthcheck, (areplica cf a); simpl in *; try discriminate; auto.
-all: idtac "REMAIN". Show. Admitted.
+  - simpl in Hp. destruct healthcheck, (areplica cf a); simpl in *; try discriminate; auto.
+  - intros _ Hc. apply (o_chk _ O) in Hc. destruct Hc. congruence.
+Qed.
 
 Lemma wait_snoc cf ops o : known_c18_wait cf (ops ++ [o]) = known_c18_wait cf ops || is_stale_fail cf o.
 Proof. unfold known_c18_wait. rewrite existsb_app. simpl. rewrite orb_false_r. reflexivity. Qed.
@@ -183,7 +184,7 @@ Proof.
   induction ops as [|o ops IH] using rev_ind.
   - intros c Hc. discriminate Hc.
   - rewrite wait_snoc in H. apply orb_false_elim in H. destruct H as [H1 H2].
-    rewrite run_snoc. apply NW_step; auto.
+    rewrite run_snoc. apply NW_step; auto. apply Own_run.
 Qed.
 
 (* ------------------------------------------------------------------ the only leak is a panic *)
@@ -241,7 +242,7 @@ Proof.
   intros F. unfold step. destruct (enabled cf t o) eqn:En; [| simpl; lia].
   destruct o; gd En; unfold apply, exit_client; cbn [cl cids sv sids creg sreg at_ andb txn_of_client qry_of_client];
     unfold upd; eqb_all; cbn; try lia.
-  all: try (destruct (F c En) as [A [B _]]; lia).
+  all: try (match goal with H : c_phase (cl t ?x) = PNone |- _ => destruct (F x H) as [A [B _]] end; lia).
 Qed.
 
 Lemma client_counts cf ops c :
@@ -252,10 +253,6 @@ Proof.
   rewrite run_snoc, trace_snoc, !count_snoc.
   destruct (client_counts_step cf (run cf ops) o c (Fresh_run cf ops)) as [A B]. lia.
 Qed.
-
-Lemma server_counts_step cf t o s : s_seen (sv t s) = false -> s_xact (sv t s) = 0 /\ s_query (sv t s) = 0 \/ True ->
-  True.
-Proof. trivial. Qed.
 
 Definition FreshS (t : st) : Prop :=
   forall s, s_seen (sv t s) = false -> s_live (sv t s) = false /\ s_xact (sv t s) = 0 /\ s_query (sv t s) = 0.
